@@ -3,3 +3,5 @@ import PncModel.Arl
 import PncModel.Interp
 import PncModel.Val2idx
 import PncModel.Registry
+import PncModel.Cal
+import PncModel.TimeDec
